@@ -717,6 +717,16 @@ func runScenario(sc Scenario, only *Fault, out *outcome) (msg string, at *Fault,
 				continue
 			}
 			out.evals++
+			// durable-before-visible under faults: if the flush of the staging file fails, the name
+			// must not be made visible afterwards (a caller that is told nothing believes the data
+			// is durable) — seeded change C13-3
+			if f.Mode == "error" && (f.Syscall == "fsync" || f.Syscall == "fdatasync") {
+				for _, c := range got[idx+1:] {
+					if (c.Name == "rename" || c.Name == "renameat" || c.Name == "renameat2" || c.Name == "link" || c.Name == "linkat") && !c.Inject && strings.HasPrefix(c.Ret, "0") {
+						return fmt.Sprintf("%s: %s, but the operation went on to %s (= %s): the name becomes visible although the flush of its data failed%s", what, f.String(), c.Name, c.Ret, map[bool]string{true: ", and the call returned normally", false: ""}[res.Exit == 0]), &f, ""
+					}
+				}
+			}
 			between := firstWrite >= 0 && renameAt >= 0 && idx > firstWrite && idx <= renameAt
 			if between || hasLeft {
 				out.nontrivial = append(out.nontrivial, key(f.String()))
